@@ -473,6 +473,7 @@ impl Check for C04 {
             ("random-bytes".into(), 20_000 * k),
             ("value-fragments".into(), 30_000 * k),
             ("datetime-strings".into(), 40_000 * k),
+            ("nesting".into(), 4_000 * k),
         ]
     }
     fn run(&mut self, ctx: &mut Ctx, workload: &str, index: u64, rng: &mut Rng) {
@@ -555,6 +556,30 @@ impl Check for C04 {
                 }
             }
             "datetime-strings" => datetime_string(rng),
+            "nesting" => {
+                // valid nesting of every construct, alone and combined, mostly below the limit
+                let pick = |rng: &mut Rng| -> usize { *rng.pick(&[1usize, 2, 5, 13, 20, 26, 27, 30, 39, 40, 41, 60, 70, 76, 77, 79, 80, 90]) };
+                loop {
+                    let header = match rng.below(4) {
+                        0 => Some((false, pick(rng))),
+                        1 => Some((true, pick(rng))),
+                        _ => None,
+                    };
+                    let key = if rng.chance(2, 3) { 1 } else { pick(rng) };
+                    let layers: Vec<crate::c05::Layer> = (0..rng.below(3))
+                        .map(|_| match rng.below(4) {
+                            0 => crate::c05::Layer::Array(pick(rng)),
+                            1 => crate::c05::Layer::Inline(pick(rng), 1),
+                            2 => crate::c05::Layer::Inline(pick(rng).min(30), 1 + rng.below(3)),
+                            _ => crate::c05::Layer::Mixed(pick(rng)),
+                        })
+                        .collect();
+                    let r = crate::c05::Recipe { header, key, layers };
+                    if r.text_len() < 4096 {
+                        break r.text().into_bytes();
+                    }
+                }
+            }
             other => {
                 ctx.inconclusive(format!("unknown workload {other}"));
                 return;
@@ -601,6 +626,24 @@ pub fn scale_doc(family: &str, n: usize) -> Option<Vec<u8>> {
         }
         "string-escapes" => s = format!("a = \"{}\"", "\\u00e9".repeat(n)),
         "nested-aot" => (0..n).for_each(|i| s.push_str(&format!("[[a]]\n[[a.b]]\nx = {i}\n"))),
+        // valid nesting below the recursion limit: depth grows with n (n/30, at most 70), so that
+        // work that doubles per level shows as a ratio far beyond quadratic
+        "nested-arrays" => {
+            let d = (n / 30).clamp(2, 70);
+            s = format!("a = {}1{}\n", "[".repeat(d), "]".repeat(d));
+        }
+        "nested-inline" => {
+            let d = (n / 30).clamp(2, 70);
+            s = format!("a = {}1{}\n", "{a=".repeat(d), "}".repeat(d));
+        }
+        "nested-mixed" => {
+            let d = (n / 60).clamp(1, 35);
+            s = format!("a = {}1{}\n", "[{a=".repeat(d), "}]".repeat(d));
+        }
+        "nested-arrays-wide" => {
+            let d = (n / 30).clamp(2, 70);
+            s = format!("a = {}1, 2{}\n", "[".repeat(d), " , 3 ]".repeat(d));
+        }
         "empty" => {}
         _ => return None,
     }
@@ -609,5 +652,5 @@ pub fn scale_doc(family: &str, n: usize) -> Option<Vec<u8>> {
 
 pub const SCALE_FAMILIES: &[&str] = &[
     "open-brackets", "quotes", "dotted-key", "inline-open", "comment-lines", "headers", "aot-headers", "array-elements", "inline-entries", "digits", "float-digits",
-    "continuations", "keys", "dotted-prefix-keys", "duplicate-after-keys", "sub-then-super", "quote-runs", "error-after-lines", "string-escapes", "nested-aot",
+    "continuations", "keys", "dotted-prefix-keys", "duplicate-after-keys", "sub-then-super", "quote-runs", "error-after-lines", "string-escapes", "nested-aot", "nested-arrays", "nested-inline", "nested-mixed", "nested-arrays-wide",
 ];
